@@ -77,6 +77,8 @@ func usage() {
 	os.Exit(2)
 }
 
+var debugHooks []func(*Ctx)
+
 func runCheck(id, tier string) (code int) {
 	pc := props[id]
 	if pc == nil {
@@ -102,6 +104,9 @@ func runCheck(id, tier string) (code int) {
 			code = 1
 		}
 	}()
+	for _, h := range debugHooks {
+		h(c)
+	}
 	pc.run(c)
 	if tier == "thorough" {
 		thoroughExtras(c, pc)
